@@ -33,6 +33,13 @@ type Prog struct {
 	wsCache   map[*FuncInfo][]string
 	funcByObj map[*types.Func]*FuncInfo
 	funcList  []*FuncInfo
+
+	// set when the program is the normalised (helper-expanded) view
+	posMaps    map[string]*fileMap
+	origSrc    map[string][]byte
+	lineStarts map[string][]int
+	Normalised string
+	collect    map[*types.Func]bool // anchor collection mode
 }
 
 // FuncInfo is one source function (declaration) of a repo package.
@@ -44,7 +51,7 @@ type FuncInfo struct {
 	Name string // Recv.Name or Name
 }
 
-func (f *FuncInfo) Key() string  { return shortPkg(f.Pkg.PkgPath) + "." + f.Name }
+func (f *FuncInfo) Key() string       { return shortPkg(f.Pkg.PkgPath) + "." + f.Name }
 func (f *FuncInfo) Info() *types.Info { return f.Pkg.TypesInfo }
 
 func shortPkg(p string) string {
@@ -55,10 +62,11 @@ func shortPkg(p string) string {
 }
 
 type LoadOpts struct {
-	Repo  string
-	Tags  string
-	GOOS  string
-	Tests bool
+	Repo    string
+	Tags    string
+	GOOS    string
+	Tests   bool
+	Overlay map[string][]byte
 }
 
 func Load(o LoadOpts) (*Prog, error) {
@@ -68,10 +76,11 @@ func Load(o LoadOpts) (*Prog, error) {
 		env = append(env, "GOOS="+o.GOOS, "CGO_ENABLED=0")
 	}
 	cfg := &packages.Config{
-		Mode:  packages.LoadAllSyntax,
-		Dir:   o.Repo,
-		Env:   env,
-		Tests: o.Tests,
+		Mode:    packages.LoadAllSyntax,
+		Dir:     o.Repo,
+		Env:     env,
+		Tests:   o.Tests,
+		Overlay: o.Overlay,
 	}
 	if o.Tags != "" {
 		cfg.BuildFlags = []string{"-tags=" + o.Tags}
@@ -202,7 +211,11 @@ func (p *Prog) Func(rel, name string) *FuncInfo {
 	if rel == "." {
 		pp = modPath
 	}
-	return p.funcs[pp+"."+name]
+	fi := p.funcs[pp+"."+name]
+	if p.collect != nil && fi != nil {
+		p.collect[fi.Obj] = true
+	}
+	return fi
 }
 
 func (p *Prog) FuncOf(obj *types.Func) *FuncInfo {
@@ -270,10 +283,16 @@ func (p *Prog) Method(pkgPath, typ, name string) *types.Func {
 	}
 	obj, _, _ := types.LookupFieldOrMethod(types.NewPointer(o.Type()), true, o.Pkg(), name)
 	if f, ok := obj.(*types.Func); ok {
+		if p.collect != nil {
+			p.collect[f.Origin()] = true
+		}
 		return f
 	}
 	obj, _, _ = types.LookupFieldOrMethod(o.Type(), true, o.Pkg(), name)
 	if f, ok := obj.(*types.Func); ok {
+		if p.collect != nil {
+			p.collect[f.Origin()] = true
+		}
 		return f
 	}
 	return nil
@@ -285,11 +304,41 @@ func (p *Prog) PosOf(pos token.Pos) string {
 		return "?"
 	}
 	ps := p.Fset.Position(pos)
+	if fm := p.posMaps[ps.Filename]; fm != nil {
+		if sg, ok := fm.lookup(ps.Offset); ok {
+			off := sg.off
+			if sg.verbatim {
+				off += ps.Offset - sg.start
+			}
+			ps.Filename, ps.Line = sg.file, p.lineOf(sg.file, off)
+		}
+	}
 	rel, err := filepath.Rel(p.Repo, ps.Filename)
 	if err != nil {
 		rel = ps.Filename
 	}
 	return fmt.Sprintf("%s:%d", rel, ps.Line)
+}
+
+func (p *Prog) lineOf(file string, off int) int {
+	if p.lineStarts == nil {
+		p.lineStarts = map[string][]int{}
+	}
+	ls, ok := p.lineStarts[file]
+	if !ok {
+		src := p.origSrc[file]
+		if src == nil {
+			src, _ = os.ReadFile(file)
+		}
+		ls = []int{0}
+		for i, b := range src {
+			if b == '\n' {
+				ls = append(ls, i+1)
+			}
+		}
+		p.lineStarts[file] = ls
+	}
+	return sort.SearchInts(ls, off+1)
 }
 
 // Callee resolves the called function/method object of a call (static or
